@@ -86,6 +86,8 @@ class Chain:
                 cur = op[1] + cur + op[2]
             elif op[0] == "translate":
                 cur = cur.translate(op[1])
+            elif op[0] in ("strip", "lstrip", "rstrip", "removeprefix", "removesuffix"):
+                cur = getattr(cur, op[0])(*op[1])
             else:
                 raise AnalysisError(f"unknown op {op}")
         return cur
@@ -219,6 +221,10 @@ def _chain_of(r: Any, v: Any, interp: Any = None) -> Tuple[Optional[Chain], Opti
                     e = walk(recv)
                     ch.ops.append(("replace", args[0].value, args[1].value))
                     return e
+                if name in ("strip", "lstrip", "rstrip", "removeprefix", "removesuffix") and all(isinstance(a, Const) and isinstance(a.value, str) for a in args) and len(args) <= 1:
+                    e = walk(recv)
+                    ch.ops.append((name, tuple(a.value for a in args)))
+                    return e
                 if name == "translate" and len(args) == 1 and isinstance(args[0], PyDict):
                     table: Dict[int, Any] = {}
                     for hk, val in args[0].items.items():
@@ -279,6 +285,21 @@ def test_strings() -> List[str]:
     return out
 
 
+def apply_normalisation(chain: List[Tuple[Any, ...]], text: str) -> str:
+    """Apply the literal-normalisation steps _decode_string_literal performs, on a constant text: (old, new) is
+    str.replace; ("re.sub", pattern, repl) is a regex literal of the analysed source applied with stdlib semantics (A1)."""
+    import re as _re
+
+    for step in chain:
+        if len(step) == 2:
+            text = text.replace(step[0], step[1])
+        elif step[0] == "re.sub":
+            text = _re.sub(step[1], step[2], text)
+        else:
+            raise AnalysisError(f"unknown normalisation step {step!r}")
+    return text
+
+
 def decode_with_model(dm: Any, chain: List[Tuple[str, str]], body: str, lex_escapes: Any, lex_raw: Any, quote: str) -> Tuple[Optional[str], str]:
     """Decode a literal body with the *extracted* reader tables.  Returns (decoded | None, reason)."""
     # lexer level
@@ -298,8 +319,7 @@ def decode_with_model(dm: Any, chain: List[Tuple[str, str]], body: str, lex_esca
             return None, f"lexer refuses raw U+{ord(c):04X}"
         i += 1
     s = body
-    for old, new in chain:
-        s = s.replace(old, new)
+    s = apply_normalisation(chain, s)
     out: List[str] = []
     i = 0
     while i < len(s):
